@@ -40,6 +40,11 @@ Proof.
   - intros H. destruct (bytes_eqb a b) eqn:E; [apply bytes_eqb_eq in E; contradiction | reflexivity].
 Qed.
 
+(* linear-time reversal (List.rev is quadratic); equal to rev *)
+Definition frev {A} (l : list A) : list A := rev_append l [].
+Lemma frev_rev {A} (l : list A) : frev l = rev l.
+Proof. unfold frev. symmetry. apply rev_alt. Qed.
+
 (* ---------- little endian ---------- *)
 Fixpoint le_decode (l : bytes) : N :=
   match l with
